@@ -27,6 +27,13 @@ theorem match_default_ok {d : Option (List Ty)} {noArms : Bool} {rt : Ty}
 
 theorem replicate_zero {α} (a : α) : List.replicate 0 a = [] := rfl
 
+theorem complete_ident {Γ : Ctx} {s : Bool} {name : String} {t : Ty} {x c : Bool} {l : List Ty}
+    (h : HasType Γ s (.ident name) t x c l) :
+    wrap s (identRes Γ name) = { errs := [], ty := t, ex := x, cst := c, tys := l } := by
+  cases h with | mk hraw hany =>
+  cases hraw with | ident hl =>
+  simp only [identRes, hl]; exact wrap_ok_eq hany
+
 set_option maxHeartbeats 4000000 in
 mutual
 theorem complete_expr : (e : PExpr) → ∀ (Γ : Ctx) (s : Bool) (t : Ty) (x c : Bool) (l : List Ty),
@@ -111,6 +118,20 @@ theorem complete_expr : (e : PExpr) → ∀ (Γ : Ctx) (s : Bool) (t : Ty) (x c 
       exact wrap_ok_eq hany
     | callDiv hb hc =>
       simp only [checkExpr, ihb _ _ _ _ hb, hc]; exact wrap_ok_eq hany
+  | .spawn name args, Γ, s, t, x, c, tys => by
+    have iha := complete_sargs args Γ
+    intro h; cases h with | mk hraw hany =>
+    cases hraw with
+    | spawnFn hb hc hv hlen ha =>
+      simp only [checkExpr, complete_ident hb, hc, hlen, bne_self_eq_false, Bool.false_eq_true, ↓reduceIte, iha _ _ _ _ ha,
+        spawnTargetErr_of_none hv, List.append_nil]
+      exact wrap_ok_eq hany
+    | spawnVar hb hc hv hlen ha =>
+      simp only [checkExpr, complete_ident hb, hc, var_arity_ok hlen, Bool.false_eq_true, ↓reduceIte, iha _ _ _ _ ha,
+        spawnTargetErr_of_none hv, List.append_nil]
+      exact wrap_ok_eq hany
+    | spawnDiv hb hc =>
+      simp only [checkExpr, complete_ident hb, hc]; exact wrap_ok_eq hany
   | .index b i, Γ, s, t, x, c, tys => by
     have ihb := complete_expr b Γ true
     have ihi := complete_expr i Γ true
@@ -196,6 +217,17 @@ theorem complete_args : (as : PExprs) → ∀ (Γ : Ctx) (ps : List Ty) (rest : 
     have hk' : ∀ k : Kind, k ≠ Kind.null → (k == Kind.null) = false := by intro k h; simpa using h
     simp only [checkArgs, iha _ _ _ _ ha, hk' _ hk, Bool.false_eq_true, ↓reduceIte, tcErr_of_compat hc, ihr _ _ _ _ hr,
       List.append_nil, List.isEmpty_nil, List.nil_append]
+theorem complete_sargs : (as : PExprs) → ∀ (Γ : Ctx) (ps : List Ty) (rest : Option Ty) (x : Bool) (l : List Ty),
+    SpawnArgsOK Γ ps rest as x l → checkSpawnArgs Γ ps rest as = { errs := [], ex := x, tys := l }
+  | .nil, Γ, ps, rest, x, l => by intro h; cases h; simp only [checkSpawnArgs]
+  | .cons a as, Γ, ps, rest, x, l => by
+    have iha := complete_expr a Γ true
+    have ihr := complete_sargs as Γ
+    intro h
+    cases h with | cons ha hk hf hc hr =>
+    have hk' : ∀ k k' : Kind, k ≠ k' → (k == k') = false := by intro k k' h; simpa using h
+    simp only [checkSpawnArgs, iha _ _ _ _ ha, hk' _ _ hk, hk' _ _ hf, Bool.false_eq_true, ↓reduceIte, tcErr_of_compat hc,
+      ihr _ _ _ _ hr, List.append_nil, List.isEmpty_nil, List.nil_append]
 theorem complete_arms : (arms : PArms) → ∀ (Γ : Ctx) (ctl : Ty) (st : MSt) (rt' : Ty) (d' : Option (List Ty)) (x : Bool)
     (l : List Ty), st.hadErr = false → ArmsOK Γ ctl st.rt st.dflt arms rt' d' x l →
     checkArms Γ ctl st arms = { errs := [], st := { rt := rt', hadErr := false, dflt := d' }, ex := x, tys := l }
